@@ -318,7 +318,21 @@ class BaseWSGIServer(wasyncore.dispatcher):
                 self.logger.warning("server accept() threw an exception", exc_info=True)
             return
         addr = self.fix_addr(addr)
-        self.channel_class(self, conn, addr, self.adj, map=self._map)
+        try:
+            self.channel_class(self, conn, addr, self.adj, map=self._map)
+        except OSError:
+            # The just-accepted socket failed while being set up (getsockopt /
+            # setblocking on a connection the client already reset).  That is
+            # the client's problem: drop this connection and keep listening,
+            # instead of letting asyncore close the *listening* socket.
+            if self.adj.log_socket_errors:
+                self.logger.warning(
+                    "could not set up accepted connection", exc_info=True
+                )
+            try:
+                conn.close()
+            except OSError:
+                pass
 
     def run(self):
         try:
